@@ -1,6 +1,8 @@
 pub mod common;
 pub mod c01;
 pub mod c02;
+pub mod c04;
+pub mod c05;
 pub mod c13;
 pub mod c16;
 pub mod c18;
